@@ -66,7 +66,8 @@ def gen_blocks(R, idx: int) -> Tuple[List[Dict[str, Any]], Dict[str, Any]]:
         for l in blk.get("instance_initialization", []):
             blk.setdefault("private_members", []).append("int " + l.split("(")[0] + ";")
         blocks.append(blk)
-    mode = R.choice(["plain", "plain", "plain", "dup_identical", "dup_conflict", "dup_content_other_name", "unknown_field", "shared_line", "same_file_body_and_header"]) if nb else "plain"
+    mode = R.choice(["plain", "plain", "plain", "dup_identical", "dup_conflict", "dup_content_other_name", "unknown_field", "shared_line", "same_file_body_and_header",
+                     "unknown_field_only", "name_only_twin", "case_variants", "dup_reordered", "dup_repeated_line"]) if nb else "plain"
     expect_error = None
     if mode == "dup_identical":
         b = R.choice(blocks)
@@ -85,6 +86,38 @@ def gen_blocks(R, idx: int) -> Tuple[List[Dict[str, Any]], Dict[str, Any]]:
         b = R.choice(blocks)
         b[R.choice(["body_include", "includes", "dtor_lines", "Name2"])] = ["x"]
         expect_error = "unknown field"
+    elif mode == "unknown_field_only":
+        # a block whose ONLY content sits under a misspelt field
+        blocks.insert(R.randrange(len(blocks) + 1), {"metadata_type": "inject_code", "name": f"blk{idx}_typo", R.choice(["ctor_line", "link_library", "includes", "initialise_lines"]): ["x"]})
+        expect_error = "unknown field"
+    elif mode == "name_only_twin":
+        # an empty block that shares its name with a block that has content: same name, different content
+        b = R.choice(blocks)
+        blocks.insert(R.randrange(len(blocks) + 1), {"metadata_type": "inject_code", "name": b["name"]})
+        expect_error = "same name, different content"
+    elif mode == "case_variants":
+        # names that differ in letter case only are different names
+        n += 1
+        b1, b2 = R.choice(blocks), R.choice(blocks)
+        f = R.choice(["body_includes", "header_includes", "link_libraries"])
+        stem = f"T{idx}x{n}"
+        a, c = (f"Pkg{stem}/Tool.h", f"Pkg{stem}/tool.h") if f != "link_libraries" else (f"Lib{stem}Tools", f"Lib{stem}tools")
+        b1[f] = list(b1.get(f, [])) + [a]
+        b2[f] = list(b2.get(f, [])) + [c]
+    elif mode in ("dup_reordered", "dup_repeated_line"):
+        cands = [(b, f) for b in blocks for f in FIELDS if len(b.get(f, [])) >= (2 if mode == "dup_reordered" else 1)]
+        if cands:
+            b0, f = R.choice(cands)
+            b = json.loads(json.dumps(b0))
+            if mode == "dup_reordered":
+                b[f] = list(reversed(b[f]))
+                if b[f] == b0[f]:
+                    b[f] = b[f][1:] + b[f][:1]
+            else:
+                b[f] = list(b[f]) + [b[f][0]]
+            if b[f] != b0[f]:
+                blocks.insert(R.randrange(len(blocks) + 1), b)
+                expect_error = "same name, different content"
     elif mode == "same_file_body_and_header":
         # one header named both as a source include and as a header include (of the same or of another block): both places get it
         n += 1
